@@ -222,6 +222,7 @@ pub struct World {
     pub rt: Vec<ArenaRt>,
     pub handles: BTreeMap<Hid, HandleState>,
     pub viol: Option<Violation>,
+    pub pending: Option<Violation>,
     pub ev_index: usize,
     pub stats: Stats,
     /// abstract signature of the run (ids and addresses erased)
@@ -306,6 +307,7 @@ impl World {
             rt: vec![],
             handles: BTreeMap::new(),
             viol: None,
+            pending: None,
             ev_index: 0,
             stats: Stats::default(),
             sig: 0x5157,
@@ -328,6 +330,33 @@ impl World {
     }
     pub fn ok(&self) -> bool {
         self.viol.is_none()
+    }
+
+    /// A violation that must not stop the event yet: what follows in the same event may show a
+    /// more specific one (a MarkedArena handed out too early is C08's, but what the finalizer
+    /// then sees is C07's). Promoted at the end of the event.
+    pub fn violate_deferred(&mut self, oracle: &str, detail: String) {
+        if self.viol.is_none() && self.pending.is_none() {
+            self.pending = Some(Violation { oracle: oracle.to_string(), event: self.ev_index, detail, aliases: vec![] });
+        }
+    }
+    pub fn promote_pending(&mut self) {
+        if let Some(p) = self.pending.take() {
+            match self.viol.as_mut() {
+                None => self.viol = Some(p),
+                Some(v) => {
+                    if v.oracle != p.oracle && !v.aliases.contains(&p.oracle) {
+                        v.aliases.push(p.oracle);
+                    }
+                }
+            }
+        }
+    }
+    /// Record a violation with alternative oracle ids.
+    pub fn violate_with(&mut self, oracle: &str, aliases: &[&str], detail: String) {
+        if self.viol.is_none() {
+            self.viol = Some(Violation { oracle: oracle.to_string(), event: self.ev_index, detail, aliases: aliases.iter().map(|s| s.to_string()).collect() });
+        }
     }
 
     /// A strongly reachable value was destructed or released: record it, together with the more
